@@ -577,10 +577,19 @@ func genSmallSpec() (*spec.Swagger, map[string]map[string]*spec.Operation, small
 	return sw, ops, f
 }
 
+// wholeParamSchema stands for #/definitions/parameter of the Swagger schema in the whole-validate
+// harnesses: a parameter object must carry a name and a location.
+func wholeParamSchema() spec.Schema {
+	ps := spec.Schema{}
+	ps.Type = spec.StringOrArray{"object"}
+	ps.Required = []string{"name", "in"}
+	return ps
+}
+
 func runWholeValidate(sw *spec.Swagger, ops map[string]map[string]*spec.Operation, cont bool) (verifOutcome, verifOutcome) {
 	s := newSpecHarnessValidator(sw, ops, cont, true)
 	s.schema = &spec.Schema{}
-	s.schema.Definitions = spec.Definitions{"parameter": spec.Schema{}}
+	s.schema.Definitions = spec.Definitions{"parameter": wholeParamSchema()}
 	errs, warns := s.Validate(s.spec)
 	return outcomeOfResult(errs), outcomeOfResult(warns)
 }
@@ -588,12 +597,23 @@ func runWholeValidate(sw *spec.Swagger, ops map[string]map[string]*spec.Operatio
 func HarnessC10WholeValidate() {
 	sw, ops, f := genSmallSpec()
 	badDefault, badExample, undefinedReq, roReq := f.badDefault, f.badExample, f.undefinedReq, f.roReq
+	// a fifth independent violation: a parameter object that is not a well-formed parameter (no name),
+	// which only the per-operation re-validation against the parameter schema reports
+	badParam := false
+	switch verifChoose(3) {
+	case 1:
+		ops["GET"]["/p"].Parameters = []spec.Parameter{*spec.QueryParam("q").Typed("string", "")}
+	case 2:
+		nameless := spec.QueryParam("").Typed("string", "")
+		ops["GET"]["/p"].Parameters = []spec.Parameter{*nameless}
+		badParam = true
+	}
 	run := func(cont bool) (verifOutcome, verifOutcome) { return runWholeValidate(sw, ops, cont) }
 	cont := verifBool()
 	errs, warns := run(cont)
 	verifObserve("valid", errs.valid)
-	verifAssert(errs.valid == !(badDefault || undefinedReq), "errors-exactly-for-broken-rules")
-	verifAssert(verifImplies(verifAnd(!badDefault, !undefinedReq), errs.valid), "warnings-alone-never-invalidate")
+	verifAssert(errs.valid == !(badDefault || undefinedReq || badParam), "errors-exactly-for-broken-rules")
+	verifAssert(verifImplies(!(badDefault || undefinedReq || badParam), errs.valid), "warnings-alone-never-invalidate")
 	all := append(append([]string{}, warns.errs...), warns.warns...)
 	verifAssert(verifSameSet(all, errs.warns), "separate-warnings-are-exactly-the-attached-warnings")
 	verifAssert(verifImplies(badExample && (cont || errs.valid), len(errs.warns) > 0), "rejected-example-is-a-warning")
@@ -711,10 +731,10 @@ func HarnessC05SpecParallel() {
 	var o1 verifOutcome
 	s1 := newSpecHarnessValidator(sw1, ops1, true, true)
 	s1.schema = &spec.Schema{}
-	s1.schema.Definitions = spec.Definitions{"parameter": spec.Schema{}}
+	s1.schema.Definitions = spec.Definitions{"parameter": wholeParamSchema()}
 	s2 := newSpecHarnessValidator(sw2, nil, true, true)
 	s2.schema = &spec.Schema{}
-	s2.schema.Definitions = spec.Definitions{"parameter": spec.Schema{}}
+	s2.schema.Definitions = spec.Definitions{"parameter": wholeParamSchema()}
 	verifGo(func() {
 		e, _ := s1.Validate(s1.spec)
 		o1 = outcomeOfResult(e)
@@ -874,7 +894,7 @@ func HarnessC12Spec() {
 	cont := verifBool()
 	s := newSpecHarnessValidator(sw, ops, cont, true)
 	s.schema = &spec.Schema{}
-	s.schema.Definitions = spec.Definitions{"parameter": spec.Schema{}}
+	s.schema.Definitions = spec.Definitions{"parameter": wholeParamSchema()}
 	verifFreeze(sw, "specification")
 	verifFreeze(ops, "operations")
 	_, _ = s.Validate(s.spec)
